@@ -105,7 +105,7 @@ let () =
   let max_size = ref 0 and max_keylen = ref 0 and max_hist = ref 0 in
   let put_new = ref 0 and put_over = ref 0 and del_hit = ref 0 and del_miss = ref 0 in
   let del_prefix_rel = ref 0 and absent_arg = ref 0 and present_arg = ref 0 and hi_bytes = ref 0 in
-  let nonempty_list = ref 0 and wild = ref 0 in
+  let nonempty_list = ref 0 and wild = ref 0 and inv_checks = ref 0 in
   let lineno = ref 0 and samples = ref 0 in
   let mms : mm list ref = ref [] in
   (try
@@ -183,6 +183,13 @@ let () =
             let mo =
               if pat then (let (p', o) = p_step !pst e in pst := p'; o)
               else (let (b', o) = b_step !bst e in bst := b'; o) in
+            (* the Patricia query theorems (PatInv.v) hold in every state passing p_inv_check; that
+               mutators preserve it is not proved, so it is evaluated after every mutator *)
+            if pat && (match e with EPut _ | EDelete _ | EDeleteMin | EDeleteMax | EDeleteAll -> true | _ -> false) then begin
+              incr inv_checks;
+              if not (p_inv_check !pst) then
+                report "fidelity" (Printf.sprintf "%s %s: the model state after this mutator fails p_inv_check (premise of the Patricia query theorems)" impl_s op)
+            end;
             spec := spec';
             let size1 = List.length !spec in
             max_size := max !max_size size1;
@@ -255,6 +262,7 @@ let () =
     !put_new !put_over !del_hit !del_miss !del_prefix_rel;
   Printf.printf "STAT query_arg_present=%d\nSTAT query_arg_absent=%d\nSTAT args_with_byte_ge_0x80=%d\nSTAT list_results_nonempty=%d\nSTAT match_patterns_with_wildcard=%d\n"
     !present_arg !absent_arg !hi_bytes !nonempty_list !wild;
+  Printf.printf "STAT patricia_states_passing_p_inv_check=%d\n" !inv_checks;
   Printf.printf "STAT known_shape_pat_withprefix=%d\nSTAT known_shape_pat_longestprefixof=%d\nSTAT known_shape_pat_trailing_nul=%d\n"
     (count "api.pat-withprefix") (count "api.pat-longestprefixof") (count "api.pat-trailing-nul");
   Hashtbl.iter (fun k v -> Printf.printf "STAT cases_%s=%d\n" k v) by_impl;
